@@ -9,11 +9,24 @@
    NumPy / struct operations are used through their documented semantics (trusted base, validated
    by the correspondence run): uint8 arithmetic `(b << k) & 0xFF`, `b >> k`, `|=`; scalar store of
    a Python int into a uint8 array (OverflowError above 255); slice assignment (must fit, except
-   that a length-1 source broadcasts, also into an empty slice); numpy.packbits/unpackbits with
+   that a length-1 source broadcasts, also into an empty slice: unreachable since /repo f2fd316,
+   every slice writer tests the capacity first); numpy.packbits/unpackbits with
    bitorder="little" (packbits_le / unpackbits_le below); x.view(Byte) = little-endian memory
-   image; struct.pack("<e|f|d") is a Section variable with its length law. *)
+   image; struct.pack("<e|f|d") is a Section variable with its length law.
+
+   This is the text of /repo f2fd316 and later (Serializer._ensure_writable: the writers that store more than one
+   element test the capacity before they touch the buffer; None = its ValueError, nothing stored).  The text
+   of before f2fd316 (no test: a one-byte slice write at the end of the buffer was silently dropped, finding
+   F-PY-SER-SILENT-DROP) is History/C14_history.v. *)
 From Verif Require Export Bits CPrims.
 Open Scope N_scope.
+
+Require Coq.Strings.String. Import String.StringSyntax.
+(* hash of the normalised AST dump (tools/translators/gen_c14.py, pins/c14py.txt) of the support-module text this file models;
+   Properties/C14.v requires the hash regenerated from /repo on every run (Gen_Pin_c14py.pin_c14py_sha) to be this one *)
+Local Open Scope string_scope.
+Definition modelled_py_support_sha : String.string := "f428ceb0708975f51de6e6ab464b64a7".
+Local Close Scope string_scope.
 
 Record ser := mkser { s_buf : bytes; s_off : N }.
 
@@ -35,6 +48,9 @@ Definition assign_slice (b : bytes) (a : N) (x : bytes) : option bytes :=
   if k =? blen x then Some (firstn (N.to_nat a) b ++ x ++ skipn (N.to_nat (a + blen x)) b)
   else if blen x =? 1 then Some b                                  (* a length-1 source broadcasts into the empty slice *)
        else None.                                                  (* ValueError: could not broadcast *)
+
+(* Serializer._ensure_writable(first_byte, byte_count): ValueError unless the bytes [first_byte, first_byte + byte_count) exist *)
+Definition ensure_writable (s : ser) (first_byte byte_count : N) : bool := first_byte + byte_count <=? blen (s_buf s).
 
 (* Serializer.new(n) *)
 Definition ser_new (n : N) : ser := mkser (repeat 0 (N.to_nat (n + 1))) 0.
@@ -85,14 +101,18 @@ Fixpoint add_unaligned_loop (s : ser) (left right : N) (value : bytes) : option 
               end
   end.
 
+(* `if len(value) > 0: self._ensure_writable(self._byte_offset, len(value) + 1)`: the loop also stores into the byte after the
+   last one it fills *)
 Definition add_unaligned_bytes (s : ser) (value : bytes) : option ser :=
   let left := s_off s mod 8 in
   let right := 8 - left in
-  add_unaligned_loop s left right value.
+  if (0 <? blen value) && negb (ensure_writable s (s_off s / 8) (blen value + 1)) then None
+  else add_unaligned_loop s left right value.
 
 (* add_aligned_bytes *)
 Definition add_aligned_bytes (s : ser) (x : bytes) : option ser :=
   if negb (s_off s mod 8 =? 0) then None
+  else if negb (ensure_writable s (s_off s / 8) (blen x)) then None
   else match assign_slice (s_buf s) (s_off s / 8) x with
        | Some b => Some (mkser b (s_off s + blen x * 8))
        | None => None
@@ -110,10 +130,11 @@ Definition add_aligned_unsigned (s : ser) (value bit_length : N) : option ser :=
   if negb (s_off s mod 8 =? 0) then None
   else match unsigned_to_bytes value bit_length with
        | None => None
-       | Some bs => match assign_slice (s_buf s) (s_off s / 8) bs with
-                    | Some b => Some (mkser b (s_off s + bit_length))
-                    | None => None
-                    end
+       | Some bs => if negb (ensure_writable s (s_off s / 8) (blen bs)) then None
+                    else match assign_slice (s_buf s) (s_off s / 8) bs with
+                         | Some b => Some (mkser b (s_off s + bit_length))
+                         | None => None
+                         end
        end.
 
 Definition add_unaligned_unsigned (s : ser) (value bit_length : N) : option ser :=
@@ -147,12 +168,17 @@ Definition add_aligned_u8 (s : ser) (x : N) : option ser :=
        | None => None
        end.
 Definition bind {A B} (o : option A) (f : A -> option B) : option B := match o with Some a => f a | None => None end.
+(* u16/u32/u64: `if self._bit_offset // 8 + N > len(self._buf): self._ensure_writable(self._byte_offset, N)` first, so that
+   nothing is stored when the whole value does not fit (u8 needs no test: NumPy raises IndexError before storing) *)
 Definition add_aligned_u16 (s : ser) (x : N) : option ser :=
-  bind (add_aligned_u8 s (N.land x 255)) (fun s1 => add_aligned_u8 s1 (N.land (N.shiftr x 8) 255)).
+  if negb (ensure_writable s (s_off s / 8) 2) then None
+  else bind (add_aligned_u8 s (N.land x 255)) (fun s1 => add_aligned_u8 s1 (N.land (N.shiftr x 8) 255)).
 Definition add_aligned_u32 (s : ser) (x : N) : option ser :=
-  bind (add_aligned_u16 s x) (fun s1 => add_aligned_u16 s1 (N.shiftr x 16)).
+  if negb (ensure_writable s (s_off s / 8) 4) then None
+  else bind (add_aligned_u16 s x) (fun s1 => add_aligned_u16 s1 (N.shiftr x 16)).
 Definition add_aligned_u64 (s : ser) (x : N) : option ser :=
-  bind (add_aligned_u32 s x) (fun s1 => add_aligned_u32 s1 (N.shiftr x 32)).
+  if negb (ensure_writable s (s_off s / 8) 8) then None
+  else bind (add_aligned_u32 s x) (fun s1 => add_aligned_u32 s1 (N.shiftr x 32)).
 (* add_aligned_i8..i64: (2**w + x) if x < 0 else x, then the unsigned method (ValueError if still negative) *)
 Definition add_aligned_ixx (w : N) (s : ser) (x : Z) : option ser :=
   let v := if (x <? 0)%Z then (2 ^ Z.of_N w + x)%Z else x in
@@ -176,6 +202,7 @@ Definition unpackbits (bs : bytes) : list bool :=
 (* add_aligned_array_of_bits / add_unaligned_array_of_bits *)
 Definition add_aligned_array_of_bits (s : ser) (x : list bool) : option ser :=
   if negb (s_off s mod 8 =? 0) then None
+  else if negb (ensure_writable s (s_off s / 8) (blen (packbits x))) then None
   else match assign_slice (s_buf s) (s_off s / 8) (packbits x) with
        | Some b => Some (mkser b (s_off s + N.of_nat (length x)))
        | None => None
